@@ -144,6 +144,49 @@ func run(c *mon.Ctx) {
 	c.Floor("event.restart_by_pusi", 500)
 	c.Floor("event.predicate_error", 100)
 	c.Floor("event.no_payload", 300)
+	c.Floor("concurrent.calls", 5000)
+	c.Stream("concurrent-accumulators", c.N(3, 150), func(i int, r *gen.Rand) {
+		c.Concurrent("accumulators of their own", 8, 300, r, func(q *gen.Rand) string {
+			T := 200 + q.Intn(800)
+			acc := packet.NewAccumulator(func(b []byte) (bool, error) { return len(b) >= T, nil })
+			var want []byte
+			var pkts []packet.Packet
+			pid := 32 + q.Intn(8000)
+			if q.Bool() { // something before the unit start is refused
+				pk := packet.Packet(ref.PayloadPacket(pid, 0, false, q.Bytes(184)))
+				if _, err := acc.WritePacket(&pk); err == nil {
+					return "a packet was accepted before the first unit start"
+				}
+			}
+			for k := 0; ; k++ {
+				chunk := q.Bytes(1 + q.Intn(184))
+				pk := packet.Packet(ref.PayloadPacket(pid, k, k == 0, chunk))
+				_, err := acc.WritePacket(&pk)
+				want = append(want, chunk...)
+				pkts = append(pkts, pk)
+				if done := len(want) >= T; done != (err == gots.ErrAccumulatorDone) || (!done && err != nil) {
+					return fmt.Sprintf("packet %d (%d bytes so far, done at %d): WritePacket returned %v", k, len(want), T, err)
+				}
+				if len(want) >= T {
+					break
+				}
+			}
+			if got := acc.Bytes(); !bytes.Equal(got, want) {
+				return fmt.Sprintf("Bytes() differs from the concatenated payloads at byte %d of %d", firstDiff(got, want), len(want))
+			}
+			got := acc.Packets()
+			if len(got) != len(pkts) {
+				return fmt.Sprintf("Packets() lists %d packets, %d were accepted", len(got), len(pkts))
+			}
+			for k := range got {
+				if *got[k] != pkts[k] {
+					return fmt.Sprintf("packet %d of Packets() is not the packet that was written", k)
+				}
+			}
+			return ""
+		})
+		c.Class("concurrent-accumulators")
+	})
 	c.Stream("histories", c.N(30000, 40000000), func(i int, r *gen.Rand) { history(c, r) })
 	// units far longer than any section or PES packet: completion is the predicate's business alone
 	c.Floor("long_unit.bytes_above_64k", 4)
